@@ -1,6 +1,55 @@
-(* C20 — a merged processing element, configured as decoded, computes each kernel. *)
-From Snax Require Import Base.Prelude Model.C20Phs.
+(* C20 — a merged processing element, configured as decoded, computes each kernel.
+   Only theorem statements closed by `exact`, each followed by Print Assumptions.
+   opsem (the meaning of the scalar operations) is universally quantified: any function of the operation
+   (name, attributes) and the operand values; integer and float operations are covered uniformly. *)
+From Snax Require Import Base.Prelude Model.C20Phs Proofs.C20PhsProofs Proofs.C20DecodeProofs.
 
-Example C20_placeholder : ident_eqb (([32;32],[32]),0%nat) (([32;32],[32]),0%nat) = true.
-Proof. reflexivity. Qed.
-Print Assumptions C20_placeholder.
+(* valid_mapping_sem: if valid_mapping accepts the mux assignment mu for the kernel graph g against the
+   abstract graph G, then G — with its mux switches set as mu says and its choose switches selecting g's
+   operations — yields on every data input what g yields. *)
+Theorem C20_valid_mapping_sem :
+  forall opsem g G sgg sg mu ins,
+    is_concrete g = true ->
+    valid_mapping g G mu = Some true ->
+    (forall m, In m (all_muxes G) -> sg m = mu m) ->
+    (forall c a k, In c (pnodes g) -> find_node (pnodes G) (nid c) = Some a -> nops c = [k] ->
+                   node_choice sg a = Some k) ->
+    forall f v, eval_pe_fuel opsem f g sgg ins = Some v -> eval_pe_fuel opsem f G sg ins = Some v.
+Proof. intros opsem g G sgg sg mu ins H1 H2 H3 H4 f v. exact (sim_pe opsem g G sgg sg mu ins H1 H2 H3 H4 f v). Qed.
+Print Assumptions C20_valid_mapping_sem.
+
+(* decode_sound: whatever decode_abstract_graph returns for kernel g against a well-formed abstract
+   graph G configures G to compute g's function, provided decode's choice by operation *type* picks the
+   kernel's operation (ops_agree; its failure is the known class not_distinct_by_type). *)
+Theorem C20_decode_sound :
+  forall opsem G g sw,
+    pe_wf G = true -> nodup_ids (map nid (pnodes g)) = true -> ops_agree g G = true ->
+    decode G g = Some sw ->
+    forall ins v swg, eval_pe opsem g swg ins = Some v -> eval_pe opsem G sw ins = Some v.
+Proof. exact decode_sound_pe. Qed.
+Print Assumptions C20_decode_sound.
+
+(* switch_count: the number of decoded values equals get_true_switches (the phs_switch_<i> fields). *)
+Theorem C20_switch_count :
+  forall G g sw, pe_wf G = true -> decode G g = Some sw -> true_switches G = Some (length sw).
+Proof. exact switch_count. Qed.
+Print Assumptions C20_switch_count.
+
+(* non-vacuity: two kernels with different routing and operations; the merged PE has a mux and a
+   two-alternative choose op, decode succeeds with a non-trivial switch list and every hypothesis holds *)
+Definition ex_f32 : sig := ([132;132],[132]).
+Definition ex_b1 : body :=
+  mkBody 3 [mkKop ex_f32 (mkOp 20 0) [KArg 0; KArg 1]; mkKop ex_f32 (mkOp 22 0) [KOp 0; KArg 1]] [KOp 1].
+Definition ex_b2 : body :=
+  mkBody 3 [mkKop ex_f32 (mkOp 22 0) [KArg 1; KArg 0]; mkKop ex_f32 (mkOp 21 0) [KArg 0; KOp 0]] [KOp 1].
+
+Example C20_decode_nonvacuous :
+  exists g1 g2 G sw,
+    encode ex_b1 = Some g1 /\ encode ex_b2 = Some g2 /\ append g2 g1 = Some G /\
+    decode G g2 = Some sw /\ pe_wf G = true /\ nodup_ids (map nid (pnodes g2)) = true /\
+    ops_agree g2 G = true /\ sw = [1; 1; 1; 1; 1; 1] /\ all_muxes G = [2%nat; 3%nat; 4%nat; 5%nat] /\
+    (forall opsem, eval_pe opsem g2 [] [5; 7] = Some [opsem (mkOp 21 0) [5; opsem (mkOp 22 0) [7; 5]]]).
+Proof.
+  eexists _, _, _, _. repeat split; try (vm_compute; reflexivity).
+Qed.
+Print Assumptions C20_decode_nonvacuous.
